@@ -422,11 +422,14 @@ pub fn gen_world(seed: u64, t: u64, steps: usize, profile: &str, out: &mut impl 
             let (cap, clen) = (c.capacity(), c.len());
             let keys: Vec<u32> = c.keys().map(|k| k.id.0).collect();
             let next_id = (w.log.len() as u32 * 7 + 1) % universe;
+            let draining = (w.log.len() / 45) % 3 == 1;      // periodic phases that empty most of the table one removal at a time
             let op = match rng.below(100) {
                 _ if clen < cap && w.log.len() < cap0 + 8 => { tok += 2; Op::Insert((w.log.len() as u32) % universe, tok - 1, 0, tok, tok, 0) }
+                0..=84 if draining && clen > 2 => Op::Remove(keys[rng.below(keys.len() as u64) as usize]),
                 0..=29 => { tok += 2; Op::Insert(next_id, tok - 1, 0, tok, tok, rng.pick(&[0usize, 0, 8])) }
                 30..=54 if !keys.is_empty() => Op::Remove(keys[rng.below(keys.len() as u64) as usize]),
-                55..=62 if !keys.is_empty() => { let k0 = keys[rng.below(keys.len() as u64) as usize]; Op::Retain(!(0x1Fu64 << (k0 % 59))) }
+                55..=60 if !keys.is_empty() => { let k0 = keys[rng.below(keys.len() as u64) as usize]; Op::Retain(!(0x1Fu64 << (k0 % 59))) }
+                61..=62 => Op::Retain((1u64 << rng.below(64)) | (1u64 << rng.below(64)) | (1u64 << rng.below(64))),     // empties most of the table: tombstones everywhere
                 63..=66 => Op::Reserve(rng.pick(&[1usize, 2, 8, 30, 68])),
                 67..=69 => Op::TryReserve(rng.pick(&[1usize, 4, 20, 64]), false),
                 70..=72 => Op::ShrinkTo(rng.pick(&[0usize, 26, 27, 50, 100])),
